@@ -12,7 +12,10 @@
     the source tree, names NOT resolved.
   * `extract` mirrors the method statement by statement: focus loop, collection of the terms of the copied
     cells, the worklist (a Python list used as a stack: `pop()` takes the last element, `extend` appends),
-    `build_code`.  `model.cells[...]` on a missing key is Python's `KeyError`: `Except.error addr`.
+    `build_code`.  `model.cells[...]` on a missing key is Python's `KeyError`: `Except.error addr`
+    (only a defined name bound to a cell that is not in `model.cells` can raise it).
+    The model mirrors /repo after the repairs of D27, D1301 (defined names used in formulas are followed) and
+    D1302 (members of a focused named range that are not cells are skipped).
 -/
 import XlVerif.Model.Evaluator
 namespace XlVerif.Model.C13
@@ -106,18 +109,19 @@ def buildCode (x : XModel) : MState :=
 
 /-! ### `ModelCompiler.extract` -/
 
-/-- `extracted_model.cells[a] = copy.deepcopy(model.cells[a])` -/
+/-- `extracted_model.cells[a] = copy.deepcopy(model.cells[a])` (KeyError when `a` is not a cell) -/
 def copyCell (m : XModel) (x : XModel) (a : Addr) : Except Addr XModel :=
   match m.st.cell? a with
   | some c => .ok (x.setCell a c)
   | none => .error a
 
-def copyCells (m : XModel) : XModel → List Addr → Except Addr XModel
-  | x, [] => .ok x
+/-- the members of a focused named range: `if column in model.cells: extracted_model.cells[column] = …` -/
+def copyCellsOpt (m : XModel) : XModel → List Addr → XModel
+  | x, [] => x
   | x, a :: rest =>
-    match copyCell m x a with
-    | .ok x' => copyCells m x' rest
-    | .error e => .error e
+    match m.st.cell? a with
+    | some c => copyCellsOpt m (x.setCell a c) rest
+    | none => copyCellsOpt m x rest
 
 /-- one iteration of `for address in focus:` -/
 def focusStep (m : XModel) (x : XModel) (a : Addr) : Except Addr XModel :=
@@ -128,7 +132,7 @@ def focusStep (m : XModel) (x : XModel) (a : Addr) : Except Addr XModel :=
     | some t => copyCell m (x.setName a t) t
     | none =>
       match assoc a m.rnames with
-      | some rn => copyCells m (x.setRName a rn) rn.cells.flatten
+      | some rn => .ok (copyCellsOpt m (x.setRName a rn) rn.cells.flatten)
       | none => .ok x
 
 def focusPhase (m : XModel) : XModel → List Addr → Except Addr XModel
@@ -154,12 +158,34 @@ def cellStep (m x : XModel) (t : Addr) : XModel × List Addr :=
   | some c => if hasKey t x.st.cells then (x, []) else (x.setCell t c, (cellTerms c).reverse)
   | none => (x, [])
 
-/-- the body of `while terms_to_copy:` for the popped `term`: the new model and what is pushed
+/-- the `if` / `elif` branches of the loop body for the popped `term`: the new model and what is pushed
     (the stack is kept top-first, so an `extend` prepends the reversed list) -/
-def step (m x : XModel) (t : Addr) : XModel × List Addr :=
+def baseStep (m x : XModel) (t : Addr) : XModel × List Addr :=
   match m.st.range? t with
   | some r => if hasKey t x.st.ranges then cellStep m x t else (x.setRange t r, r.cells.flatten.reverse)
   | none => cellStep m x t
+
+/-- `if name not in extracted_model.defined_names: extracted_model.defined_names[name] = deepcopy(...)` -/
+def addName (x : XModel) (t a : Addr) : XModel := if hasKey t x.st.names then x else x.setName t a
+def addRName (x : XModel) (t : Addr) (rn : RName) : XModel := if hasKey t x.rnames then x else x.setRName t rn
+
+/-- the `else:` branch for a term that is neither a cell nor a range of the model: a defined name used in a
+    formula is copied and the address / range key it is bound to (`_defn_address`) is pushed.
+    (The Python term carries the sheet of the formula, `Sheet1!name`; here a name is its own term.) -/
+def nameStep (m x : XModel) (t : Addr) : XModel × List Addr :=
+  match assoc t m.st.names with
+  | some a => (addName x t a, [a])
+  | none =>
+    match assoc t m.rnames with
+    | some rn => (addRName x t rn, [rn.key])
+    | none => (x, [])
+
+/-- the body of `while terms_to_copy:`; the `else:` branch does something only when
+    `term not in model.cells and term not in model.ranges` -/
+def step (m x : XModel) (t : Addr) : XModel × List Addr :=
+  match m.st.range? t, m.st.cell? t with
+  | none, none => nameStep m x t
+  | _, _ => baseStep m x t
 
 def worklist (m : XModel) : Nat → XModel → List Addr → XModel × List Addr
   | 0, x, todo => (x, todo)
@@ -172,11 +198,12 @@ def sumNat : List Nat → Nat
   | [] => 0
   | a :: rest => a + sumNat rest
 
-/-- enough iterations for the loop to finish (theorem `worklist_finishes`): every iteration pops one term,
-    and the terms of a cell / the members of a range are pushed at most once -/
+/-- enough iterations for the loop to finish (theorem `worklist_terminates`): every iteration pops one term;
+    the terms of a cell / the members of a range are pushed at most once; a term that is a defined name
+    pushes one more (what it is bound to) -/
 def workFuel (m : XModel) (todo : List Addr) : Nat :=
-  todo.length + sumNat (m.st.cells.map fun p => (cellTerms p.2).length)
-    + sumNat (m.st.ranges.map fun p => p.2.cells.flatten.length)
+  2 * todo.length + sumNat (m.st.cells.map fun p => 2 * (cellTerms p.2).length)
+    + sumNat (m.st.ranges.map fun p => 2 * p.2.cells.flatten.length)
 
 /-- `extract(model, focus)`; the result is what `extracted_model` holds (its `formulae` stay empty, ranges
     are copied by the worklist only); `build_code` is applied by the evaluator's view `buildCode` -/
@@ -208,8 +235,8 @@ def deps (m : XModel) (a : Addr) : List Addr :=
       | some r => r.cells.flatten
       | none => []))
 
-/-- guard of finding D1301 on a list of addresses (the closure): no formula stored there mentions a
-    defined name and no range there has a defined name as a member -/
+/-- (statistics only) no formula stored at the listed addresses mentions a defined name and no range there
+    has a defined name as a member — the cases that did not need the repair of D1301 -/
 def nameFreeOn (m : XModel) (s : List Addr) : Bool :=
   s.all fun a =>
     (match m.st.cell? a with
@@ -219,13 +246,15 @@ def nameFreeOn (m : XModel) (s : List Addr) : Bool :=
         | some r => r.cells.flatten.all fun y => !(m.isName y)
         | none => true)
 
-/-- hygiene of compiled workbooks: a range key is not a cell address; a defined name is neither a cell
-    address nor a range key; the target of a name (the members of a named range) are not names -/
+/-- hygiene of compiled workbooks: a range key is not a cell address and its members are not defined names;
+    a defined name is neither a cell address nor a range key; the target of a name is not a name; the members
+    of a named range are neither names nor range keys; a named range is registered in `ranges` under its key -/
 def wfb (m : XModel) : Bool :=
-  (m.st.ranges.all fun p => !(hasKey p.1 m.st.cells))
+  (m.st.ranges.all fun p => !(hasKey p.1 m.st.cells) && p.2.cells.flatten.all fun y => !(m.isName y))
   && (m.st.names.all fun p => !(hasKey p.1 m.st.cells) && !(hasKey p.1 m.st.ranges) && !(m.isName p.2))
   && (m.rnames.all fun p => !(hasKey p.1 m.st.cells) && !(hasKey p.1 m.st.ranges)
-        && p.2.cells.flatten.all fun b => !(m.isName b))
+        && hasKey p.2.key m.st.ranges
+        && p.2.cells.flatten.all fun b => !(m.isName b) && !(hasKey b m.st.ranges))
 
 /-- `set_cell_value` calls applied in order (on the built model: `set_cell_value` does not re-parse) -/
 def applySets (sets : List (Addr × V)) (m : MState) : MState :=
